@@ -367,4 +367,191 @@ Section Types.
       exact (tr_dispatch e ke A se f HL Hks Hse true rhs m t Ht Hbb Hnm bs Hsat commit_ok outkey cb HA Hwf Hmw H32 Hc Hna L1 L2).
     Qed.
   End TapLeaf.
+  (* ================================================================ (<=) hides no path *)
+  Lemma final_ok_accepts e' s st : final_ok (exec e' s (mkSt st [])) = true -> accepts e' s st = true.
+  Proof. unfold final_ok, accepts. destruct (exec e' s {| stk := st; alt := [] |}); auto. Qed.
+
+  (* what an accepted P2SH spend consists of *)
+  Lemma verify_sh_inv h ssig witness : verify_sh e h ssig witness = true ->
+    exists ss rb st, parse_script ssig = Some ss /\ pushonly_stack ss [] = Some (rb :: st) /\ e_hash160 e rb = h /\
+      match spk_is_p2wsh rb with
+      | Some prog => st = [] /\ verify_wsh e prog witness = true
+      | None =>
+        match spk_is_p2wpkh rb with
+        | Some kh' => st = [] /\ verify_wpkh e kh' witness = true
+        | None => witness = [] /\ exists s, parse_script rb = Some s /\ count_nonpush_ops s <= 201 /\
+                                            accepts (with_sv e SvBase) s st = true
+        end
+      end.
+  Proof.
+    unfold verify_sh. intros H. destruct (parse_script ssig) as [ss|] eqn:Eps; [|discriminate].
+    apply andb_prop in H. destruct H as [_ H].
+    destruct (pushonly_stack ss []) as [[|rb st]|] eqn:Est; try discriminate.
+    apply andb_prop in H. destruct H as [H Hm]. apply andb_prop in H. destruct H as [Hh _].
+    apply bytes_eqb_eq in Hh. exists ss, rb, st. split; [reflexivity|]. split; [exact Est|]. split; [exact Hh|].
+    destruct (spk_is_p2wsh rb) as [prog|].
+    - destruct st; [split; [reflexivity | exact Hm] | discriminate].
+    - destruct (spk_is_p2wpkh rb) as [kh'|].
+      + destruct st; [split; [reflexivity | exact Hm] | discriminate].
+      + destruct witness; [|discriminate]. split; [reflexivity|].
+        destruct (parse_script rb) as [s|]; [|discriminate]. apply andb_prop in Hm. destruct Hm as [H1 H2].
+        exists s. split; [reflexivity|]. split; [apply N.leb_le; exact H1 | apply final_ok_accepts; exact H2].
+  Qed.
+
+  Lemma not_annex_dec cb : not_annex cb \/ exists r, cb = 80 :: r.
+  Proof.
+    destruct cb as [|c r]; [left; exact I|]. destruct (N.eq_dec c 80) as [->|Hn]; [right; eexists; reflexivity|].
+    left. unfold not_annex.
+    repeat match goal with |- context [match ?q with _ => _ end] => is_var q; destruct q; try exact I end.
+    apply Hn. reflexivity.
+  Qed.
+
+  Lemma verify_wsh_nil prog : verify_wsh e prog [] = false. Proof. reflexivity. Qed.
+  Lemma verify_wpkh_nil kh' : verify_wpkh e kh' [] = false. Proof. reflexivity. Qed.
+
+  Section Hides.
+    Variable W : wit.
+    Variables (rl : bool) (m : ms) (t : ty) (p : lpolicy).
+    Hypothesis Ht : type_of m = ROk t.
+    Hypothesis Hbb : c_base (t_corr t) = BB.
+    Hypothesis Hl : lift rl m = Some p.
+    Notation sb := (encode ke m).
+
+    (* P2SH-P2WSH: ANY scriptSig, ANY last witness item; collision-freeness of hash160 on the redeem
+       script (the witness program) and of sha256 on the witness script, each on the one pair *)
+    Theorem shwsh_hides_no_path :
+      kh_binds (with_sv e SvWitnessV0) ke W -> wf (with_sv e SvWitnessV0) ke m -> ms_wf Segwitv0 ke m ->
+      blen (e_sha256 e sb) = 32 ->
+      (forall rb, e_hash160 e rb = e_hash160 e (spk_wsh e sb) -> rb = spk_wsh e sb) ->
+      forall (ssig : bytes) (items : list bytes) (sb' : bytes),
+        (e_sha256 e sb' = e_sha256 e sb -> sb' = sb) -> incl items W ->
+        verify_sh e (e_hash160 e (spk_wsh e sb)) ssig (items ++ [sb']) = true ->
+        leval (assets_of (with_sv e SvWitnessV0) ke W) p = true.
+    Proof.
+      intros Hkh Hwf Hmw H32 Hc160 ssig items sb' Hc256 Hin Hv.
+      destruct (verify_sh_inv _ _ _ Hv) as (ss & rb & st & _ & _ & Hh & Hm).
+      rewrite (Hc160 rb Hh), (spk_wsh_eq e sb H32), (spk_is_p2wsh_intro _ H32) in Hm. destruct Hm as [_ Hw].
+      exact (wsh_hides_no_path e ke Hks Hse W rl m t p Hkh Ht Hbb Hwf Hmw Hl items sb' Hc256 Hin Hw).
+    Qed.
+
+    (* P2SH (empty witness: a non-empty witness is only looked at when the redeem script is a witness
+       program).  The elements the scriptSig pushes below the redeem script come from the world. *)
+    Theorem sh_hides_no_path :
+      kh_binds (with_sv e SvBase) ke W -> wf (with_sv e SvBase) ke m -> ms_wf Legacy ke m ->
+      (forall rb, e_hash160 e rb = e_hash160 e sb -> rb = sb) ->
+      forall ssig : bytes,
+        (forall ss rb st, parse_script ssig = Some ss -> pushonly_stack ss [] = Some (rb :: st) -> incl st W) ->
+        verify_sh e (e_hash160 e sb) ssig [] = true ->
+        leval (assets_of (with_sv e SvBase) ke W) p = true.
+    Proof.
+      intros Hkh Hwf Hmw Hc160 ssig Hin Hv.
+      destruct (verify_sh_inv _ _ _ Hv) as (ss & rb & st & Hp & Hst & Hh & Hm).
+      specialize (Hin ss rb st Hp Hst). rewrite (Hc160 rb Hh) in Hm.
+      destruct (spk_is_p2wsh sb); [destruct Hm as [_ Hm]; rewrite verify_wsh_nil in Hm; discriminate|].
+      destruct (spk_is_p2wpkh sb); [destruct Hm as [_ Hm]; rewrite verify_wpkh_nil in Hm; discriminate|].
+      destruct Hm as (_ & s & Hps & _ & Hacc).
+      rewrite (parse_encode Legacy ke Hks m Hmw) in Hps. inversion Hps; subst s.
+      exact (lift_hides_no_path (with_sv e SvBase) ke Hks Hse W rl m t p Hkh Ht Hbb Hwf Hl st Hin Hacc).
+    Qed.
+
+    (* bare *)
+    Theorem bare_hides_no_path :
+      kh_binds (with_sv e SvBase) ke W -> wf (with_sv e SvBase) ke m -> ms_wf Bare ke m ->
+      forall (ssig : bytes) (witness : list bytes),
+        (forall ss st, parse_script ssig = Some ss -> pushonly_stack ss [] = Some st -> incl st W) ->
+        verify_bare e sb ssig witness = true ->
+        leval (assets_of (with_sv e SvBase) ke W) p = true.
+    Proof.
+      intros Hkh Hwf Hmw ssig witness Hin Hv. unfold verify_bare in Hv. destruct witness; [|discriminate].
+      rewrite (parse_encode Bare ke Hks m Hmw) in Hv. destruct (parse_script ssig) as [ss|]; [|discriminate].
+      apply andb_prop in Hv. destruct Hv as [_ Hv].
+      destruct (pushonly_stack ss []) as [st|] eqn:Est; [|discriminate].
+      exact (lift_hides_no_path (with_sv e SvBase) ke Hks Hse W rl m t p Hkh Ht Hbb Hwf Hl st (Hin ss st eq_refl Est)
+               (final_ok_accepts _ _ _ Hv)).
+    Qed.
+
+    (* P2TR script path: the witness ends with (leaf script, control block); [commit_ok] is the BIP341
+       commitment oracle; that the committed script under this control block is THIS leaf is the
+       binding hypothesis (one pair), the analogue of collision-freeness *)
+    Theorem tr_hides_no_path (commit_ok : bytes -> bytes -> bool) (outkey : bytes) :
+      kh_binds (with_sv e SvTapscript) ke W -> wf (with_sv e SvTapscript) ke m -> ms_wf Tap ke m ->
+      forall (ssig : bytes) (items : list bytes) (sb' cb : bytes),
+        (commit_ok sb' cb = true -> sb' = sb) -> incl items W ->
+        verify_tr e outkey commit_ok ssig (items ++ [sb'; cb]) = true ->
+        leval (assets_of (with_sv e SvTapscript) ke W) p = true.
+    Proof.
+      intros Hkh Hwf Hmw ssig items sb' cb Hbind Hin Hv. unfold verify_tr in Hv.
+      destruct ssig; [|discriminate]. rewrite rev_app_distr in Hv. cbn [rev app] in Hv.
+      assert (Hv' : commit_ok sb' cb && forallb (fun it => N.leb (blen it) 520) (rev items)
+                    && N.leb (N.of_nat (length (rev items))) 1000
+                    && match parse_script sb' with
+                       | None => false
+                       | Some s => final_ok (exec (with_sv e SvTapscript) s (mkSt (rev items) []))
+                       end = true).
+      { destruct (not_annex_dec cb) as [Hna|[r ->]]; [|discriminate Hv]. rewrite (annex_match cb _ _ Hna) in Hv. exact Hv. }
+      apply andb_prop in Hv'. destruct Hv' as [Hv' Hx]. apply andb_prop in Hv'. destruct Hv' as [Hv' _].
+      apply andb_prop in Hv'. destruct Hv' as [Hc _].
+      rewrite (Hbind Hc), (parse_encode Tap ke Hks m Hmw) in Hx.
+      apply (lift_hides_no_path (with_sv e SvTapscript) ke Hks Hse W rl m t p Hkh Ht Hbb Hwf Hl (rev items)).
+      - intros x Hx'. apply Hin, in_rev, Hx'.
+      - exact (final_ok_accepts _ _ _ Hx).
+    Qed.
+
+    (* ---- through the dispatcher ---- *)
+    Theorem wsh_dispatch_hides (commit_ok : bytes -> bytes -> bool) :
+      kh_binds (with_sv e SvWitnessV0) ke W -> wf (with_sv e SvWitnessV0) ke m -> ms_wf Segwitv0 ke m ->
+      blen (e_sha256 e sb) = 32 ->
+      forall (ssig : bytes) (items : list bytes) (sb' : bytes),
+        (e_sha256 e sb' = e_sha256 e sb -> sb' = sb) -> incl items W ->
+        verify_spend e commit_ok (spk_wsh e sb) ssig (items ++ [sb']) = true ->
+        leval (assets_of (with_sv e SvWitnessV0) ke W) p = true.
+    Proof.
+      intros Hkh Hwf Hmw H32 ssig items sb' Hc Hin Hv. unfold verify_spend in Hv.
+      rewrite (spk_wsh_eq e sb H32), (spk_is_p2wsh_intro _ H32) in Hv. destruct ssig; [|discriminate].
+      exact (wsh_hides_no_path e ke Hks Hse W rl m t p Hkh Ht Hbb Hwf Hmw Hl items sb' Hc Hin Hv).
+    Qed.
+
+    Theorem shwsh_dispatch_hides (commit_ok : bytes -> bytes -> bool) :
+      kh_binds (with_sv e SvWitnessV0) ke W -> wf (with_sv e SvWitnessV0) ke m -> ms_wf Segwitv0 ke m ->
+      blen (e_sha256 e sb) = 32 -> blen (e_hash160 e (spk_wsh e sb)) = 20 ->
+      (forall rb, e_hash160 e rb = e_hash160 e (spk_wsh e sb) -> rb = spk_wsh e sb) ->
+      forall (ssig : bytes) (items : list bytes) (sb' : bytes),
+        (e_sha256 e sb' = e_sha256 e sb -> sb' = sb) -> incl items W ->
+        verify_spend e commit_ok (spk_shwsh e sb) ssig (items ++ [sb']) = true ->
+        leval (assets_of (with_sv e SvWitnessV0) ke W) p = true.
+    Proof.
+      intros Hkh Hwf Hmw H32 H20 Hc160 ssig items sb' Hc Hin Hv. unfold spk_shwsh in Hv.
+      rewrite (sh_dispatch_gen e commit_ok _ _ _ H20) in Hv.
+      exact (shwsh_hides_no_path Hkh Hwf Hmw H32 Hc160 ssig items sb' Hc Hin Hv).
+    Qed.
+
+    Theorem sh_dispatch_hides (commit_ok : bytes -> bytes -> bool) :
+      kh_binds (with_sv e SvBase) ke W -> wf (with_sv e SvBase) ke m -> ms_wf Legacy ke m ->
+      blen (e_hash160 e sb) = 20 ->
+      (forall rb, e_hash160 e rb = e_hash160 e sb -> rb = sb) ->
+      forall ssig : bytes,
+        (forall ss rb st, parse_script ssig = Some ss -> pushonly_stack ss [] = Some (rb :: st) -> incl st W) ->
+        verify_spend e commit_ok (spk_sh e sb) ssig [] = true ->
+        leval (assets_of (with_sv e SvBase) ke W) p = true.
+    Proof.
+      intros Hkh Hwf Hmw H20 Hc160 ssig Hin Hv. rewrite (sh_dispatch_gen e commit_ok _ _ _ H20) in Hv.
+      exact (sh_hides_no_path Hkh Hwf Hmw Hc160 ssig Hin Hv).
+    Qed.
+
+    Theorem tr_dispatch_hides (commit_ok : bytes -> bytes -> bool) (outkey : bytes) :
+      kh_binds (with_sv e SvTapscript) ke W -> wf (with_sv e SvTapscript) ke m -> ms_wf Tap ke m ->
+      blen outkey = 32 ->
+      forall (ssig : bytes) (items : list bytes) (sb' cb : bytes),
+        (commit_ok sb' cb = true -> sb' = sb) -> incl items W ->
+        verify_spend e commit_ok (spk_tr outkey) ssig (items ++ [sb'; cb]) = true ->
+        leval (assets_of (with_sv e SvTapscript) ke W) p = true.
+    Proof.
+      intros Hkh Hwf Hmw H32 ssig items sb' cb Hbind Hin Hv. unfold verify_spend in Hv. rewrite (spk_tr_eq outkey H32) in Hv.
+      change (spk_is_p2wsh (81 :: 32 :: outkey)) with (@None bytes) in Hv.
+      change (spk_is_p2wpkh (81 :: 32 :: outkey)) with (@None bytes) in Hv.
+      change (spk_is_p2sh (81 :: 32 :: outkey)) with (@None bytes) in Hv.
+      rewrite (spk_is_p2tr_intro _ H32) in Hv.
+      exact (tr_hides_no_path commit_ok outkey Hkh Hwf Hmw ssig items sb' cb Hbind Hin Hv).
+    Qed.
+  End Hides.
 End Types.
